@@ -41,7 +41,8 @@ class Frustum(RoundSolidShape):
         radius_1 = f.norm(radius_vector_1)
 
         # TODO: TEST
-        diff = np.dot(axis, radius_vector_1)
+        # the cosine of the angle between the two: independent of the size of the shape
+        diff = np.dot(f.unit_vector(axis), f.unit_vector(radius_vector_1))
         if abs(diff) > TOL:
             raise FrustumCreationError(
                 "Axis and radius vectors are not perpendicular", f"Difference: {diff}, tolerance: {TOL}"
